@@ -268,3 +268,54 @@ func KeysOf(ds []prog.Diag, pkg string) []string {
 	sort.Strings(out)
 	return out
 }
+
+// Unrelated is a package without imports that has its own annotated items and violations; it
+// shares type and function names with package a on purpose (Mock, Helper, T).
+func Unrelated() prog.Pkg {
+	return prog.Pkg{Path: "ex.com/m/e", Files: []prog.File{{Name: "e.go", Src: `package e
+
+// T is immutable here too.
+// @immutable
+// @constructor NewT
+type T struct{ F int }
+
+func NewT() *T { return &T{} }
+
+// Mock is test-only.
+// @testonly
+type Mock struct{ A int }
+
+// Helper is test-only.
+// @testonly
+func Helper() int { return 0 }
+
+// Iface is not implemented by Impl.
+type Iface interface{ Do(); Undo(x int) string }
+
+// Impl claims Iface.
+// @implements Iface
+type Impl struct{} // want IMPL03
+
+func work(x *T) {
+	x.F = 1 // want IMM01
+	_ = T{} // want CTOR01
+	_ = Mock{} // want TONL01
+	Helper() // want TONL02
+}
+`}, {Name: "e2.go", Src: `package e
+
+func work2(x *T) {
+	_ = Mock{} // want TONL01
+	var m Mock
+	_ = m
+	x.F++ // want IMM03
+}
+`}}}
+}
+
+// WithUnrelated appends the unrelated package to a copy of p.
+func WithUnrelated(p *prog.Program) *prog.Program {
+	q := &prog.Program{Pkgs: append([]prog.Pkg(nil), p.Pkgs...)}
+	q.Pkgs = append(q.Pkgs, Unrelated())
+	return q
+}
